@@ -1229,6 +1229,9 @@ func condOp(lhs, rhs V, op ast.Op) (any, ast.DType, error) {
 			if dtype == ast.Float {
 				return cast.ToFloat64(lhs.V) == cast.ToFloat64(rhs.V), ast.Bool, nil
 			}
+			if lhs.T != ast.Float && rhs.T != ast.Float {
+				return cast.ToInt64(lhs.V) == cast.ToInt64(rhs.V), ast.Bool, nil
+			}
 			return cast.ToFloat64(lhs.V) == cast.ToFloat64(rhs.V), ast.Bool, nil
 		case ast.String:
 			if rhs.T != ast.String {
@@ -1255,6 +1258,9 @@ func condOp(lhs, rhs V, op ast.Op) (any, ast.DType, error) {
 			dtype := typePromotion(lhs.T, rhs.T)
 			if dtype == ast.Float {
 				return cast.ToFloat64(lhs.V) != cast.ToFloat64(rhs.V), ast.Bool, nil
+			}
+			if lhs.T != ast.Float && rhs.T != ast.Float {
+				return cast.ToInt64(lhs.V) != cast.ToInt64(rhs.V), ast.Bool, nil
 			}
 			return cast.ToFloat64(lhs.V) != cast.ToFloat64(rhs.V), ast.Bool, nil
 		case ast.String:
